@@ -1,7 +1,7 @@
 CONSTANTS
   Deviations = {}
   KnownDevs = {"RangeStepColons", "FloatNoFraction", "BareFieldNotAWord"}
-  DomSize = 1
+  DomSize = 2
   Blocks = 24
   MaxL = 0
   MaxStmts = 0
